@@ -122,6 +122,62 @@ def _fold_early_returns(body):
     return body
 
 
+def _fold_value_returns(body, ret):
+    """``if C: ...; return A`` followed by REST ending in ``return B``
+    becomes  ``if C: ...; ret = A  else: REST'; ret = B``  - a body without
+    returns that leaves the result in the variable ``ret``.  None when the
+    returns sit anywhere else (loops, try, nested deeper)."""
+    def assign(v):
+        a = ast.Assign(targets=[ast.Name(id=ret, ctx=ast.Store())],
+                       value=v if v is not None else ast.Constant(None))
+        return a
+
+    def has_ret(nodes):
+        return any(isinstance(x, ast.Return) for n_ in nodes
+                   for x in ast.walk(n_))
+
+    def fold(stmts):
+        if not stmts:
+            return [assign(None)]
+        for i, st in enumerate(stmts):
+            if isinstance(st, ast.Return):
+                if i != len(stmts) - 1:
+                    return None
+                return stmts[:i] + [assign(st.value)]
+            if isinstance(st, ast.If) and has_ret([st]):
+                then = fold(st.body) if has_ret(st.body) else None
+                if has_ret(st.body) and then is None:
+                    return None
+                if st.orelse and has_ret(st.orelse):
+                    other = fold(st.orelse)
+                    if other is None or stmts[i + 1:]:
+                        # both arms return: nothing may follow
+                        if other is None or (stmts[i + 1:] and has_ret(
+                                st.body)):
+                            return None
+                    new = ast.If(test=st.test,
+                                 body=then or st.body, orelse=other)
+                    ast.copy_location(new, st)
+                    return stmts[:i] + [new]
+                if st.orelse:
+                    return None
+                rest = fold(stmts[i + 1:])
+                if rest is None:
+                    return None
+                new = ast.If(test=st.test, body=then, orelse=rest)
+                ast.copy_location(new, st)
+                return stmts[:i] + [new]
+            if has_ret([st]):
+                return None     # return inside a loop / try / with
+        return stmts + [assign(None)]
+
+    out = fold(list(body))
+    if out is not None:
+        for x in out:
+            ast.fix_missing_locations(x)
+    return out
+
+
 class Helper:
     def __init__(self, q, node, owner):
         self.q = q
@@ -153,8 +209,7 @@ class Helper:
         if n.decorator_list or a.vararg or a.kwarg or isinstance(
                 n, ast.AsyncFunctionDef):
             return False
-        if not all(isinstance(d, ast.Constant)
-                   for d in self.defaults.values()):
+        if not all(_simple(d) for d in self.defaults.values()):
             return False
         for x in ast.walk(n):
             if x is n:
@@ -189,6 +244,11 @@ class Helper:
             return True
         if len(rets) == 1 and body[-1] is rets[0]:
             self.stmts = (body[:-1], rets[0].value)
+            return True
+        folded = _fold_value_returns(body, f"__ret_{n.name}")
+        if folded is not None:
+            self.stmts = (folded, ast.Name(id=f"__ret_{n.name}",
+                                           ctx=ast.Load()))
             return True
         return self.expr is not None
 
